@@ -594,6 +594,10 @@ func C16(c *core.Ctx) {
 	if c.HasViolation() || c.Expired() {
 		return
 	}
+	c16handshakeCut(c, dev)
+	if c.HasViolation() || c.Expired() {
+		return
+	}
 	c16hostile(c)
 }
 
@@ -661,6 +665,90 @@ func c16closeVsConnect(c *core.Ctx, dev int) {
 				return
 			}
 			vsched.Logf("ok")
+		}
+		st := c.RunSched(explore.SchedOpts{Name: name, Bound: -1, DevBound: dev + 1, Cache: true, UseMark: true, Body: body, MaxPoints: 100000, Check: schedCheck},
+			func(v *explore.Violation) string { return "C16 " + name + " :: " + violClass(v.Message) })
+		if st != nil {
+			c.Rep.Sample(map[string]interface{}{"scenario": name, "deviations": dev + 1, "executions": st.Executions, "states": st.States})
+		}
+	}
+}
+
+// c16handshakeCut: a client sends its CONNECT and is gone before the CONNACK can be
+// written (the write fails with "broken pipe"), or right after it.  Either way the
+// connection has ended: no goroutine of it remains, a clean session is not kept, the
+// will is published exactly once (the CONNECT was accepted), and the broker goes on
+// serving the witness.
+func c16handshakeCut(c *core.Ctx, dev int) {
+	for _, v := range []struct {
+		name  string
+		clean bool
+		anon  bool
+	}{{"clean session", true, false}, {"persistent session", false, false}, {"no client identifier", true, true}} {
+		if !c.Mine() {
+			continue
+		}
+		if c.Expired() || c.HasViolation() {
+			return
+		}
+		v := v
+		name := "CONNECT, gone before the CONNACK (" + v.name + ", with a will)"
+		body := func() {
+			t := newTD()
+			wt := t.connect("W", 0, 65535, false)
+			if wt == nil {
+				return
+			}
+			t.subscribe("W", "will/#", 0)
+			x, err := t.w.Dial("X")
+			if err != nil || vsched.Failed() {
+				return
+			}
+			x.Dead = true
+			vsched.Mark()
+			o := ConnectOpts{ClientID: "x", Clean: v.clean, KeepAlive: 65535, Will: &Will{"will/x", "gone:x", 0, false}}
+			if v.anon {
+				o.ClientID = ""
+			}
+			x.Conn.Write(refcodec.Encode(ConnectPacket(o)))
+			x.Conn.Close()
+			t.settleExcept()
+			if alive := threadsOf(LibThreadsAlive(), "0.1.2"); len(alive) > 0 {
+				vsched.Failf("the connection ended during its handshake but %d of its goroutines are still there: %s", len(alive), core.ParkedString(alive))
+				return
+			}
+			impl := t.w.ImplKey()
+			store := strings.SplitN(impl, "#", 2)[0]
+			if v.clean {
+				// W's session is the only one that may be there
+				if n := strings.Count(store, "{"); n > 1 {
+					vsched.Failf("a CleanSession=1 connection (%s) that ended before its CONNACK could be written left its session in the store: 1 connection is open, the store holds %d sessions", v.name, n)
+					return
+				}
+			}
+			n := 0
+			for _, pk := range wt.rc.Take() {
+				if pk.Type == refcodec.PUBLISH && string(pk.Topic) == "will/x" && string(pk.Payload) == "gone:x" {
+					n++
+				}
+			}
+			if n != 1 {
+				// the broker accepted the CONNECT (it tried to answer with code 0, or did):
+				// the will is stored with the connection from then on [MQTT-3.1.2-8]
+				vsched.Failf("the will of a connection whose CONNECT was accepted and whose client was gone before (or right after) the CONNACK was published %d times", n)
+				return
+			}
+			// the witness is still served
+			wt.rc.Send(&refcodec.Packet{Type: refcodec.PINGREQ})
+			t.settleExcept()
+			if ps := wt.rc.Take(); len(ps) != 1 || ps[0].Type != refcodec.PINGRESP {
+				vsched.Failf("after a connection ended during its handshake the witness' PINGREQ is answered by %s", Describe(ps))
+				return
+			}
+			if t.badStream() {
+				return
+			}
+			vsched.Logf("ok will=%d", n)
 		}
 		st := c.RunSched(explore.SchedOpts{Name: name, Bound: -1, DevBound: dev + 1, Cache: true, UseMark: true, Body: body, MaxPoints: 100000, Check: schedCheck},
 			func(v *explore.Violation) string { return "C16 " + name + " :: " + violClass(v.Message) })
